@@ -1,1 +1,2 @@
 import Lemmas.Sweep
+import Lemmas.Bits
